@@ -209,6 +209,18 @@ static void trace_workload(const sentry_t *s, priv_t *p)
                 call_entry(s, p, 7 + i);
                 entrycall_trace = 0;
         }
+        if (s->kind == 10 || s->kind == 12) {
+                /* GCM: messages long enough for the low counter byte to wrap (> 4 KiB) take a slower counter path in some families */
+                static const int gl[] = { 4200, 8300 };
+                for (int i = 0; i < 2; i++) { entrycall_len = gl[i]; entrycall_trace = 1; call_entry(s, p, 31 + (uint64_t) i); entrycall_trace = 0; }
+        }
+        if (s->kind == 20) {
+                /* XTS: every number of trailing whole blocks, with and without ciphertext stealing, after zero and after one pass of the 8-block loop */
+                for (int base = 0; base <= 128; base += 128) for (int n = 1; n <= 7; n++) for (int st = 0; st < 2; st++) {
+                        entrycall_len = base + 16 * n + 5 * st;
+                        entrycall_trace = 1; call_entry(s, p, 41 + (uint64_t) (base + n * 2 + st)); entrycall_trace = 0;
+                }
+        }
         if (s->kind == 10 || s->kind == 11 || s->kind == 13) {
                 /* GCM: the other tag lengths and AAD lengths have branches of their own */
                 static const uint32_t tl[] = { 12, 8, 16 }, al_[] = { 0, 1, 16, 33, 64 }, ll[] = { 0, 5, 100 };
